@@ -1245,9 +1245,9 @@ def run(tier: str, replay: str | None = None):
 
     # 2. the model: built on its own, so that a broken proof (e.g. a pinned constant that changed)
     # does not take the correspondence and the known-finding attribution down with it
-    model_ok = gen is not None
-    if model_ok:
-        model_ok, _log = lib.coq_make(["theories/Format/Guards.vo", "theories/Format/FormatEval.vo"])
+    # (when a translator failed, the Gen files of the previous run are still on disk: the model is
+    # built against them, so that the correspondence can still point at the behaviour that changed)
+    model_ok, _log = lib.coq_make(["theories/Format/Guards.vo", "theories/Format/FormatEval.vo", "theories/Format/Typed.vo"])
     exe = None
     if model_ok:
         try:
